@@ -611,14 +611,12 @@ func (am *AccountingManager) processPendingRecord(record *PendingAcctRecord) {
 		case AcctStatusStop:
 			atomic.AddUint64(&am.stopTotal, 1)
 			am.verifCrashPoint(8, record.Request.SessionID)
-			// The Stop is acknowledged: drop the persisted session that StopSession kept
-			// for crash recovery (unless the id is in use by an active session again).
-			am.sessionsMu.RLock()
-			_, active := am.sessions[record.Request.SessionID]
-			am.sessionsMu.RUnlock()
-			if !active {
-				am.removePersistedSession(record.Request.SessionID)
-			}
+			// The Stop is acknowledged: drop the persisted session that was kept for crash
+			// recovery. This must not depend on the session still being registered: the
+			// processor may deliver the Stop while StopSession (or the shutdown drain) has
+			// not yet deleted it, and a file left behind is sent as a second Stop on the
+			// next start.
+			am.removePersistedSession(record.Request.SessionID)
 		case AcctStatusInterimUpdate:
 			atomic.AddUint64(&am.interimTotal, 1)
 		}
